@@ -168,6 +168,12 @@ func joinFieldPath(path, fieldName string) string {
 }
 
 func recFieldDescriptors(v reflect.Value, path string, fds *[]FieldDescriptor) {
+	recFieldDescriptorsIn(v, path, fds, map[reflect.Type]bool{})
+}
+
+// recFieldDescriptorsIn does not go down a structure type which is
+// already being described (self referencing types through pointers)
+func recFieldDescriptorsIn(v reflect.Value, path string, fds *[]FieldDescriptor, within map[reflect.Type]bool) {
 	typ := v.Type()
 
 	switch v.Kind() {
@@ -176,12 +182,17 @@ func recFieldDescriptors(v reflect.Value, path string, fds *[]FieldDescriptor) {
 
 	case reflect.Ptr:
 		if v.Elem().Kind() == reflect.Struct {
-			recFieldDescriptors(v.Elem(), path, fds)
+			recFieldDescriptorsIn(v.Elem(), path, fds, within)
 		} else {
 			*fds = append(*fds, fdFromType(path, "", typ))
 		}
 
 	case reflect.Struct:
+		if within[typ] {
+			return
+		}
+		within[typ] = true
+		defer delete(within, typ)
 
 		for i := 0; i < v.NumField(); i++ {
 			fieldValue := v.Field(i)
@@ -196,12 +207,12 @@ func recFieldDescriptors(v reflect.Value, path string, fds *[]FieldDescriptor) {
 			case reflect.Ptr:
 				// create a new field
 				fieldValue = reflect.New(structField.Type.Elem())
-				recFieldDescriptors(fieldValue, joinFieldPath(path, structField.Name), fds)
+				recFieldDescriptorsIn(fieldValue, joinFieldPath(path, structField.Name), fds, within)
 				continue
 			case reflect.Struct:
 				// don't treat struct time.Time as a struct
 				if !fieldValue.Type().AssignableTo(timeType) {
-					recFieldDescriptors(fieldValue, joinFieldPath(path, structField.Name), fds)
+					recFieldDescriptorsIn(fieldValue, joinFieldPath(path, structField.Name), fds, within)
 					continue
 				}
 			}
